@@ -11,6 +11,7 @@ N = ["n"]
 INT_LITS = ["0", "1", "3", "5", "10", "11", "-1", "-5", "100", "2000000000"]
 HEX_LITS = ["0x0", "0x1", "0x1F", "0x20", "0x21", "0xff", "0X1f", "1f", "20", "0x10", "0xFF"]
 STR_LITS = ["", "x", "a b", 'q"z', "a\\b", "#c", "zz", "5"]
+FLOAT_LITS = ["0.0", "5", "5.0", "1e3", "-0.5", ".5", "2.5", "10.0", "100.5", "1.5", "3.25", "7"]
 
 
 # --------------------------------------------------------------------- tables
@@ -21,10 +22,10 @@ def tables(extra_strings=()):
     import re
 
     for s in set(INT_LITS) | set(HEX_LITS) | set(extra_strings):
-        if re.fullmatch(r"-?[0-9]+", s) and abs(int(s)) < 2**31:
+        if re.fullmatch(r"[-+]?[0-9]+", s) and abs(int(s)) < 2**31:
             num10[s] = int(s)
             numc[s] = int(s)
-        if re.fullmatch(r"(0[xX])?[0-9a-fA-F]+", s) and int(s, 16) < 2**31:
+        if re.fullmatch(r"(0[xX])?[0-9a-fA-F]+", s) and abs(int(s, 16)) < 2**31:
             num16[s] = int(s, 16)
         if re.fullmatch(r"0[xX][0-9a-fA-F]+", s) and int(s, 16) < 2**31:
             numc[s] = int(s, 16)
@@ -35,7 +36,22 @@ def tables(extra_strings=()):
         if n >= 0:
             num16.setdefault(hex(n), n)
             numc.setdefault(hex(n), n)
-    strings = set(extra_strings) | set(num10) | set(num16) | set(STR_LITS) | {"y", "n", NOVAL, "absent"}
+    import math
+
+    fvals = {}
+    for s in set(FLOAT_LITS) | set(extra_strings) | set(num10):
+        if re.fullmatch(r"[-+]?([0-9]+\.?[0-9]*|\.[0-9]+)([eE][-+]?[0-9]+)?", s):
+            x = float(s)
+            if math.isfinite(x) and abs(x) < 1e15:
+                fvals[s] = x
+    for x in list(fvals.values()):
+        fvals.setdefault(str(x), x)
+    order = sorted(set(fvals.values()))
+    frank = {x: i for i, x in enumerate(order)}
+    numf = {s: frank[x] for s, x in fvals.items()}
+    normf = {s: str(x) for s, x in fvals.items()}
+    fcanon = {str(i): str(x) for x, i in frank.items()}
+    strings = set(extra_strings) | set(num10) | set(normf.values()) | set(num16) | set(STR_LITS) | {"y", "n", NOVAL, "absent"}
     rank = {s: i for i, s in enumerate(sorted(strings))}
     return {
         "num10": num10,
@@ -44,6 +60,9 @@ def tables(extra_strings=()):
         "decstr": {str(n): str(n) for n in sorted(ints)},
         "hexstr": {str(n): hex(n) for n in sorted(ints) if n >= 0},
         "rank": rank,
+        "numf": numf,
+        "normf": normf,
+        "fcanon": fcanon,
     }
 
 
@@ -70,7 +89,7 @@ def atom_text(a, as_string=False):
     lit = a[1]
     import re
 
-    if not as_string and re.fullmatch(r"-?[0-9]+|0[xX][0-9a-fA-F]+", lit):
+    if not as_string and re.fullmatch(r"-?[0-9]+|0[xX][0-9a-fA-F]+|-?[0-9]*\.[0-9]+|-?[0-9]+\.[0-9]*", lit):
         return lit
     return q(lit)
 
